@@ -37,11 +37,15 @@ let fmt_s (f : pixfmt) =
 let () =
   let sf = ref zero_fmt and cf = ref zero_fmt and econ = ref false and cm = ref empty_cmap in
   let state : (pixfmt * strategy) option ref = ref None in
+  let tcm = ref empty_cmap in     (* the colour map the client's table was built from *)
+  let tbl_s st cf' = (match st with
+      | SNone -> "tbl=- tsum=-"
+      | _ -> let t = table_bytes st !sf cf' !tcm in Printf.sprintf "tbl=%d tsum=%s" (List.length t) (fnv64 t)) in
   iter_lines stdin (fun line ->
     match split_ws line with
     | [] -> ()
     | "case" :: _ ->
-        sf := zero_fmt; cf := zero_fmt; econ := false; cm := empty_cmap; state := None; print_endline line
+        sf := zero_fmt; cf := zero_fmt; econ := false; cm := empty_cmap; tcm := empty_cmap; state := None; print_endline line
     | "sf" :: a -> (match fmt_of a with Some f -> sf := f | None -> ())
     | "cf" :: a -> (match fmt_of a with Some f -> cf := f | None -> ())
     | ["econ"; v] -> econ := (int_of_string v <> 0)
@@ -54,17 +58,22 @@ let () =
          | SetupCrash -> print_endline "setup crash"
          | SetupOk (cf', st, msg) ->
              state := Some (cf', st);
-             let tb = (match st with SNone -> None | _ -> Some (table_bytes st !sf cf' !cm)) in
+             tcm := !cm;
              Printf.printf "setup ok=1 fn=%s cf=%s msg=%s %s\n" (match st with SNone -> "none" | _ -> "table")
-               (fmt_s cf') (if msg = [] then "-" else hex_of_bytes msg)
-               (match tb with None -> "tbl=- tsum=-"
-                            | Some t -> Printf.sprintf "tbl=%d tsum=%s" (List.length t) (fnv64 t)))
+               (fmt_s cf') (if msg = [] then "-" else hex_of_bytes msg) (tbl_s st cf'))
+    | "recmap" :: ready :: is16 :: count :: data ->
+        cm := { cm_is16 = (int_of_string is16 <> 0); cm_count = zi count; cm_data = List.map zi data };
+        (match !state with
+         | None -> print_endline "recmap nosetup"
+         | Some (cf', st) ->
+             tcm := recolour !sf (int_of_string ready <> 0) !tcm !cm;
+             Printf.printf "recmap ret=1 %s\n" (tbl_s st cf'))
     | "xlate" :: stride :: w :: h :: rest ->
         (match !state with
          | None -> print_endline "xlate nosetup"
          | Some (cf', st) ->
              let input = (match rest with [hx] -> bytes_of_hex hx | _ -> []) in
-             (match translate_fn st !sf cf' !cm (zi stride) (zi w) (zi h) input with
+             (match translate_fn st !sf cf' !tcm (zi stride) (zi w) (zi h) input with
               | XOk out -> print_endline ("xlate out=" ^ hex_of_bytes out)
               | XFault off -> Printf.printf "xlate FAULT at=%d\n" (int_of_z off)
               | XUndef why -> Printf.printf "xlate undef=%d\n" (int_of_z why)))
